@@ -145,6 +145,8 @@ type c15 struct {
 	// accounts whose attachment list (>= 3 pools) lost a pool that was not the
 	// last one since their last paid RPC
 	reordered map[proto4.Account]bool
+	// the host's current settings differ by this factor from the signed table in use ("" = same)
+	stale string
 }
 
 func (c *c15) key(kind byte, i int) types.PrivateKey {
@@ -525,6 +527,23 @@ func expectedCost(x *rhplab.Exchange) (acc proto4.Account, tok proto4.AccountTok
 func (c *c15) step(st c15Step) error {
 	c.steps = append(c.steps, st)
 	c.cur = &c.steps[len(c.steps)-1]
+	switch st.Op {
+	case "set-prices":
+		// the host changes its settings; tables it signed before stay valid
+		if err := c.lab.SetPriceFactor(st.Amounts[0]); err != nil {
+			return inconclusive("%v", err)
+		}
+		c.stale = st.Amounts[0]
+		c.r.Count("settings_changes", 1)
+		return nil
+	case "fetch-prices":
+		p, err := c.lab.HostPrices(c.cl)
+		if err != nil {
+			return inconclusive("RPCSettings: %v", err)
+		}
+		c.prices, c.stale = p, ""
+		return nil
+	}
 	if err := c.quiesce(); err != nil {
 		return err
 	}
@@ -651,6 +670,10 @@ func (c *c15) step(st c15Step) error {
 			if ev.Err == "" {
 				paid[ev.Stream] = usage
 				c.r.Count("debits_ok", 1)
+				if c.stale != "" {
+					c.r.Count("debits_priced_by_older_signed_table", 1)
+					c.r.Distinct("stale-table:" + kind + ":" + c.stale)
+				}
 			} else {
 				c.r.Count("debits_insufficient", 1)
 			}
@@ -1147,6 +1170,34 @@ func (c *c15) runTable() error {
 			}
 		}
 	}
+	// (1b) the same tuning while the host's current prices differ from the
+	// signed table the renter keeps using: the signed table decides
+	for _, f := range []string{"x2", "x0.5", "zero", "x1000"} {
+		if err := c.step(c15Step{Op: "set-prices", Amounts: []string{f}}); err != nil {
+			return err
+		}
+		for _, op := range c.debitOps() {
+			for _, delta := range []int{-1, 0, 1} {
+				if err := c.tuned(op, delta, []string{"own", "own+pool"}[(delta+1)%2], -1); err != nil {
+					return err
+				}
+			}
+		}
+	}
+	// a fresh table carries the new prices and is honoured as well
+	for _, f := range []string{"x2", "x1"} {
+		if err := c.step(c15Step{Op: "set-prices", Amounts: []string{f}}); err != nil {
+			return err
+		}
+		if err := c.step(c15Step{Op: "fetch-prices"}); err != nil {
+			return err
+		}
+		for _, op := range c.debitOps() {
+			if err := c.tuned(op, 0, "own", -1); err != nil {
+				return err
+			}
+		}
+	}
 	// (2) attach / detach authorisation
 	a, p := len(c.accKeys), len(c.poolKeys)
 	c.acct(a + 1)
@@ -1438,6 +1489,20 @@ func (c *c15) runRandom(n int) error {
 			}
 			return hs(v)
 		}
+		if i%19 == 7 {
+			if err := c.step(c15Step{Op: "set-prices", Amounts: []string{[]string{"x0.5", "x2", "zero", "x1000", "x1"}[c.rng.IntN(5)]}}); err != nil {
+				return err
+			}
+		}
+		if i%83 == 40 {
+			if err := c.step(c15Step{Op: "set-prices", Amounts: []string{[]string{"x0.5", "x2", "x1"}[c.rng.IntN(3)]}}); err != nil {
+				return err
+			}
+			if err := c.step(c15Step{Op: "fetch-prices"}); err != nil {
+				return err
+			}
+			costs = []types.Currency{c.prices.RPCReadSectorCost(64).RenterCost(), c.prices.RPCVerifySectorCost().RenterCost(), c.prices.RPCWriteSectorCost(128).RenterCost()}
+		}
 		var st c15Step
 		switch v := c.rng.IntN(20); {
 		case v < 3:
@@ -1510,6 +1575,8 @@ func runC15(r *mon.Run, replay string) {
 	r.Floor("paused_funder_conserved", 40)
 	r.Floor("debit_store_faults", 8)
 	r.Floor("contention_rounds_exact", 200)
+	r.Floor("settings_changes", 20)
+	r.Floor("debits_priced_by_older_signed_table", 60)
 	r.Floor("contention_rpcs_refused", 300)
 	var wg sync.WaitGroup
 	workers := r.Pick(4, 10)
